@@ -1980,4 +1980,4 @@ def run(ctx) -> None:
     ctx.hyp("tta", tta_specs(), max_examples=ctx.pick(700, 15000), shards=shards)
     ctx.hyp("hmmresult", hmmresult_specs(), max_examples=ctx.pick(1000, 16000), shards=shards)
     ctx.hyp("rre", rre_specs(), max_examples=ctx.pick(600, 12000), shards=shards)
-    more.run(ctx, shards)
+    more.run(ctx, 16)
